@@ -16,6 +16,8 @@ impl<T: Summary> Vec<T> {
     pub fn new() -> Self { Vec { sum: T::ZERO, n: 0 } }
     pub fn push(&mut self, t: T) { self.sum.add(&t); self.n += 1; }
     pub fn insert(&mut self, _at: usize, t: T) { self.push(t) }
+    pub fn extend(&mut self, other: Vec<T>) { self.sum.add(&other.sum); self.n += other.n; }
+    pub fn append(&mut self, other: &mut Vec<T>) { self.sum.add(&other.sum); self.n += other.n; other.n = 0; other.sum = T::ZERO; }
 }
 impl Summary for proc_macro2::TokenStream { const ZERO: Self = proc_macro2::TokenStream::EMPTY; fn add(&mut self, x: &Self) { self.uses |= x.uses; self.defs += x.defs; self.inner_defs += x.inner_defs; self.deep_defs += x.deep_defs; } }
 impl Summary for (ItemId, Option<WrapAsVariadic>) { const ZERO: Self = (ItemId(0), None); fn add(&mut self, _: &Self) {} }
@@ -67,7 +69,10 @@ fn leaf(mask: u8, result: &mut CodegenResult<'_>) {
     if mask & 64 != 0 { result.saw_objc(); }
     if mask & 128 != 0 { result.saw_bitfield_unit(); }
     let mut t = TokenStream::EMPTY; t.uses = mask; result.push(t);
+    // a static function that received a binding named after its wrapper registers itself for the wrapper file (Function::codegen, checked under C16)
+    unsafe { if LEAF_WRAPS { result.items_to_serialize.push((ItemId(4), None)); REGISTERED += 1; } }
 }
+pub static mut LEAF_WRAPS: bool = false; pub static mut REGISTERED: usize = 0;
 macro_rules! level {
     ($Ctx:ident, $Item:ident, $Module:ident, $Child:ty) => {
         pub struct $Module { pub children: [ItemId; 1], pub inline: bool }
@@ -130,6 +135,7 @@ mod proofs {
         let l2 = Item2 { id: ItemId(2), m: Module2 { children: [ItemId(3)], inline: kani::any() }, child: Node::Leaf(mask()) };
         let l1 = Item1 { id: ItemId(1), m: Module1 { children: [ItemId(2)], inline: kani::any() }, child: if depth >= 3 { Node::Mod(l2) } else { Node::Leaf(mask()) } };
         let root = Item0 { id: ItemId(0), m: Module0 { children: [ItemId(1)], inline: false }, child: if depth >= 2 { Node::Mod(l1) } else { Node::Leaf(mask()) } };
+        unsafe { LEAF_WRAPS = kani::any(); REGISTERED = 0; }
         let id = Cell::new(0);
         let mut result = CodegenResult::new(&id);
         let c0 = Ctx0 { d: &d as *const Data, cur: &root as *const Item0 };
@@ -146,6 +152,8 @@ mod proofs {
         };
         chk(0); chk(1); chk(2); chk(3); chk(4); chk(5); chk(6); chk(7);
         assert!(deep == 0, "a helper type is defined inside a nested module");
+        assert!(result.items_to_serialize.n == unsafe { REGISTERED }, "a function registered for the static-function wrapper file inside a module is lost on the way up: its binding names a wrapper that is never written");
+        kani::cover!(unsafe { REGISTERED } == 1, "a static function registered");
         kani::cover!(uses & 4 != 0, "some emitted item uses __IncompleteArrayField");
         kani::cover!(uses == 0, "nothing uses a helper");
         core::mem::forget(result);
